@@ -7,8 +7,11 @@ import (
 	"encoding/json"
 	"fmt"
 	"os"
+	"runtime"
 	"sort"
 	"sync"
+	"sync/atomic"
+	"time"
 )
 
 // Step is one call with the reply the specification prescribes.
@@ -39,6 +42,7 @@ type ReplayResult struct {
 	NFail     int         `json:"n_failures"`
 	NDrift    int         `json:"n_drift"`
 	NInconcl  int         `json:"n_inconclusive"`
+	Aborted   string      `json:"aborted,omitempty"`
 	Samples   []Behaviour `json:"samples"`
 }
 
@@ -132,13 +136,43 @@ func runReplay(comp string, r Replayer, opt *Options) error {
 	if w < 1 {
 		w = 1
 	}
+	running := map[int]time.Time{}
+	finish := func() error { return writeReplayResult(res, bs, opt) }
+	// memory watchdog: a library call that loops forever while allocating would take the whole process
+	// down (out of memory is not recoverable).  When the heap explodes, the behaviours that have been
+	// running for a while are reported as "did not return" and the result is written at once.
+	go func() {
+		var ms runtime.MemStats
+		for {
+			time.Sleep(50 * time.Millisecond)
+			runtime.ReadMemStats(&ms)
+			if ms.HeapAlloc < memLimit {
+				continue
+			}
+			mu.Lock()
+			for idx, t0 := range running {
+				if time.Since(t0) > 300*time.Millisecond {
+					res.NFail++
+					res.Failures = append(res.Failures, &Failure{Index: idx, Step: -1, Kind: "verdict", Behaviour: bs[idx],
+						Sig: "a library call did not return (endless loop, unbounded memory)", Got: fmt.Sprintf("heap %d MB", ms.HeapAlloc>>20)})
+				}
+			}
+			res.Aborted = "heap limit reached"
+			finish()
+			os.Exit(0)
+		}
+	}()
 	for i := 0; i < w; i++ {
 		wg.Add(1)
 		go func() {
 			defer wg.Done()
 			for idx := range ch {
+				mu.Lock()
+				running[idx] = time.Now()
+				mu.Unlock()
 				f := safeRun(r, bs[idx], opt)
 				mu.Lock()
+				delete(running, idx)
 				res.Steps += len(bs[idx])
 				if f == nil {
 					res.Passed++
@@ -165,6 +199,14 @@ func runReplay(comp string, r Replayer, opt *Options) error {
 	}
 	close(ch)
 	wg.Wait()
+	mu.Lock()
+	defer mu.Unlock()
+	return finish()
+}
+
+var memLimit uint64 = 3 << 30
+
+func writeReplayResult(res *ReplayResult, bs []Behaviour, opt *Options) error {
 	sort.Slice(res.Failures, func(i, j int) bool {
 		a, b := res.Failures[i], res.Failures[j]
 		if len(a.Behaviour) != len(b.Behaviour) {
@@ -195,14 +237,32 @@ func runReplay(comp string, r Replayer, opt *Options) error {
 
 // safeRun turns a panic that escapes the adapter (i.e. one the adapter did not
 // expect at a call where the contract allows a panic) into a verdict failure.
-func safeRun(r Replayer, b Behaviour, opt *Options) (f *Failure) {
-	defer func() {
-		if p := recover(); p != nil {
-			f = &Failure{Step: -1, Sig: "panic escaped: " + firstLine(fmt.Sprint(p)), Got: fmt.Sprint(p)}
-		}
+func safeRun(r Replayer, b Behaviour, opt *Options) *Failure {
+	if atomic.LoadInt32(&hangs) >= 3 {
+		// several behaviours already hung (each leaves a spinning goroutine behind): the verdict is
+		// established, the rest is skipped
+		return &Failure{Kind: "inconclusive", Sig: "skipped after repeated hangs"}
+	}
+	done := make(chan *Failure, 1)
+	go func() {
+		defer func() {
+			if p := recover(); p != nil {
+				done <- &Failure{Step: -1, Sig: "panic escaped: " + firstLine(fmt.Sprint(p)), Got: fmt.Sprint(p)}
+			}
+		}()
+		done <- r(b, opt)
 	}()
-	return r(b, opt)
+	select {
+	case f := <-done:
+		return f
+	case <-time.After(hangTimeout):
+		atomic.AddInt32(&hangs, 1)
+		return &Failure{Step: -1, Sig: "a library call did not return (hang / endless loop)", Got: "no reply within " + hangTimeout.String()}
+	}
 }
+
+var hangs int32
+var hangTimeout = 20 * time.Second
 
 func firstLine(s string) string {
 	for i := 0; i < len(s); i++ {
@@ -218,6 +278,9 @@ func firstLine(s string) string {
 
 // callPanics runs f and reports whether it panicked (with the panic value).
 func callPanics(f func()) (panicked bool, val any) {
+	id := atomic.AddInt64(&callSeq, 1)
+	inflight.Store(id, time.Now())
+	defer inflight.Delete(id)
 	defer func() {
 		if p := recover(); p != nil {
 			panicked, val = true, p
@@ -246,7 +309,39 @@ func NewTraceWriter(path string) (*TraceWriter, error) {
 	if err != nil {
 		return nil, err
 	}
-	return &TraceWriter{f: f, w: bufio.NewWriterSize(f, 1<<20)}, nil
+	tw := &TraceWriter{f: f, w: bufio.NewWriterSize(f, 1<<20)}
+	go tw.watchdog()
+	return tw, nil
+}
+
+var callSeq int64
+var inflight sync.Map // call id -> start time of a library call made through callPanics
+
+// watchdog: a library call that never returns (or eats memory without bound) cannot be recovered
+// like a panic.  The driver records it as a `crash` event - the trace specifications never accept
+// one - flushes the trace and ends the process, so that TLC judges what was recorded so far.
+func (t *TraceWriter) watchdog() {
+	var ms runtime.MemStats
+	for {
+		time.Sleep(100 * time.Millisecond)
+		runtime.ReadMemStats(&ms)
+		stuck := ms.HeapAlloc > memLimit
+		inflight.Range(func(_, v any) bool {
+			if time.Since(v.(time.Time)) > hangTimeout {
+				stuck = true
+			}
+			return true
+		})
+		if stuck {
+			t.mu.Lock()
+			b, _ := json.Marshal(map[string]any{"op": "(library call)", "e": "crash", "crash": "a library call did not return (endless loop / unbounded memory)"})
+			t.w.Write(b)
+			t.w.WriteByte('\n')
+			t.w.Flush()
+			t.f.Close()
+			os.Exit(0)
+		}
+	}
 }
 
 func (t *TraceWriter) Emit(ev map[string]any) {
